@@ -750,6 +750,71 @@ Definition window_shape (tc : tcase) : bool :=
 Definition is_dark (s : st) : bool := match pc s with PDark => true | _ => false end.
 Definition tc_in_window (tc : tcase) : bool := in_window (tc_single tc) (tc_state tc).
 
+(* ---- one case of the two-producer tie (c04_rec multi): hook calls of several producers scheduled one at a
+   time, recorder catch-ups in between, one producer killed inside a hook call, the others between two ---- *)
+Inductive mact := AP (t : nat) | AR | AK (t e : nat).
+Record mcase := {
+  mc_cap : nat; mc_ops : list (list op); mc_acts : list mact;
+  mc_shl : list (nat * nat * N); mc_wl : list (nat * nat); mc_files : list (list N) }.
+Definition mcatch_up (M : mst) : mst :=
+  let M1 := mdrain M in
+  iter (length (m_wl M1)) (fun M => match m_wl M with (u, _) :: _ => mwstep u M | [] => M end) M1.
+Fixpoint mt_acts (cap : nat) (groups : list (list (list rec))) (acts : list mact) (M : mst) : mst :=
+  match acts with
+  | [] => M
+  | AR :: r => mt_acts cap groups r (mcatch_up M)
+  | AP t :: r =>
+      match nth t groups [] with
+      | [] => mt_acts cap groups r M
+      | g :: gs =>
+          let s := proj t M in
+          let k := length (p_until_done true false cap (fuel_for (length g)) (length (done s) + length g) s) in
+          mt_acts cap (upd t (fun _ => gs) groups) r (iter k (mstep true cap (MP t)) M)
+      end
+  | AK t e :: r =>
+      match nth t groups [] with
+      | [] => mt_acts cap groups r M
+      | g :: gs =>
+          let s := proj t M in
+          let k := length (p_until_events true false cap (fuel_for (length g)) e (length (done s) + length g) s) in
+          mt_acts cap (upd t (fun _ => []) groups) r (iter k (mstep true cap (MP t)) M)
+      end
+  end.
+Definition mc_groups (mc : mcase) : list (list (list rec)) := map (fun ops => snd (ops_run [] ops)) (mc_ops mc).
+Definition mc_state (mc : mcase) : mst :=
+  mt_acts (mc_cap mc) (mc_groups mc) (mc_acts mc) (minit (map (fun gs => concat gs) (mc_groups mc))).
+Definition mobs (M : mst) : list (nat * nat * N) * list (nat * nat) * list (list N) :=
+  let M1 := mdrain M in
+  let M2 := mflush M1 in
+  (map (fun x => (fst x, snd x, flag_val (b_flag (getb (snd x) (h_bufs (nth (fst x) (m_thr M1) thr0)))))) (m_shl M1),
+   map (fun x => (fst x, b_size (getb (snd x) (h_bufs (nth (fst x) (m_thr M2) thr0))))) (m_wl M2),
+   map h_file (m_thr (mremaining M2))).
+Fixpoint pairs_eqb (a b : list (nat * nat)) : bool :=
+  match a, b with
+  | [], [] => true
+  | (x, y) :: a', (u, v) :: b' => Nat.eqb x u && Nat.eqb y v && pairs_eqb a' b'
+  | _, _ => false
+  end.
+Fixpoint triples_eqb (a b : list (nat * nat * N)) : bool :=
+  match a, b with
+  | [], [] => true
+  | (x, y, z) :: a', (u, v, w) :: b' => Nat.eqb x u && Nat.eqb y v && (z =? w)%N && triples_eqb a' b'
+  | _, _ => false
+  end.
+Fixpoint files_eqb (a b : list (list N)) : bool :=
+  match a, b with
+  | [], [] => true
+  | x :: a', y :: b' => list_eqb x y && files_eqb a' b'
+  | _, _ => false
+  end.
+Definition magrees (mc : mcase) : bool :=
+  let '(a, b, c) := mobs (mc_state mc) in
+  triples_eqb a (mc_shl mc) && pairs_eqb b (mc_wl mc) && files_eqb c (mc_files mc).
+(* the property on the implementation's files: every producer's file is a whole-record prefix of its execution *)
+Definition mok_case (mc : mcase) : bool :=
+  forallb (fun x => ok_prefix (eager [] (fst x)) (snd x)) (combine (mc_ops mc) (mc_files mc))
+  && Nat.eqb (length (mc_files mc)) (length (mc_ops mc)).
+
 (* ---- one case of the liveness tie: messages / SIGCHLD / check_tid_list on real processes ---- *)
 Inductive lev :=
 | LMsg (m : tmsg)
